@@ -36,7 +36,7 @@ INFO = dict(
                'RLock is uncontended (single operation per step)'],
 )
 
-EXPECT_COVERS = ['dispatch-marks-down', 'dispatch-resurrects', 'dispatch-all-down', 'complete-idle-reinsert',
+EXPECT_COVERS = ['open-with-empty-server-set', 'dispatch-marks-down', 'dispatch-resurrects', 'dispatch-all-down', 'complete-idle-reinsert',
                  'remove-middle', 'dispatch-open-chosen']
 
 
@@ -56,6 +56,8 @@ def jobs(tier):
   js = []
   js.append(dict(name='base', op='base', N=0, down=(), cost=1))
   js.append(dict(name='empty', op='empty', N=0, down=(), cost=1))
+  for cls in ('heap', 'aperture'):
+    js.append(dict(name='empty-at-open-%s' % cls, op='empty-open', cls=cls, N=0, down=(), cost=5))
   for N in SIZES[tier]:
     for down in down_configs(N, max(MAXDOWN[tier], 2 if N <= 4 else 1)):
       stales = [False] if (down and N > 4) else [False, 'head', 'tail']
@@ -125,6 +127,43 @@ def make_body(job):
         s._OpenInitialChannels.__func__  # exists
         B.check_inv(c, 'base%d' % n)
         check('base%d.idle' % n, all(nd.load == Idle for nd in s._heap[1:]))
+      return
+    if op == 'empty-open':
+      # the balancer is opened (real Open()) while its server set is still empty: a request fails at once with
+      # NoMembersError, and once a member has joined requests reach it
+      import gevent
+      from symex import vtime, stubs
+      import scales.loadbalancer.heap as heap_mod
+      from scales.sink import ClientMessageSinkStack
+      from scales.message import MethodCallMessage
+      from .fakes import FakeServerSet, ChanProvider, Member, Ep
+      from scales.loadbalancer.aperture import ApertureBalancerSink
+      from scales.constants import SinkProperties
+      import scales.loadbalancer.aperture as ap_mod, scales.loadbalancer.base as base_mod, scales.varz as vz
+      vtime.setup()
+      heap_mod.random = stubs.SymRandom('heap'); ap_mod.random = stubs.SymRandom('ap'); base_mod.random = stubs.SymRandom('base')
+      vz.math = stubs.SymMath(); vz.float = stubs.sym_float
+      C = HeapBalancerSink if job['cls'] == 'heap' else ApertureBalancerSink
+      ss = FakeServerSet(0); prov = ChanProvider()
+      d = dict(C.Builder._defaults); d['server_set_provider'] = ss
+      if job['cls'] == 'aperture': d.update(jitter_min_sec=0, jitter_max_sec=0)
+      s = C(prov, C.Builder.PARAMS_CLASS(**d), {SinkProperties.Label: 'verif'})
+      ar = s.Open()
+      gevent.sleep(1)
+      check('emptyopen.open-completes', ar.ready())
+      st = ClientMessageSinkStack(); term = B.Terminal(); st.Push(term)
+      s.AsyncProcessRequest(st, MethodCallMessage(None, 'm', (), {}), None, None)
+      gevent.sleep(1)
+      check('emptyopen.fails-at-once', len(term.got) == 1 and isinstance(getattr(term.got[0], 'error', None), NoMembersError))
+      m = Member(Ep('h1', 9001))
+      gevent.spawn(ss.on_join, m)
+      gevent.sleep(1)
+      st2 = ClientMessageSinkStack(); term2 = B.Terminal(); st2.Push(term2)
+      s.AsyncProcessRequest(st2, MethodCallMessage(None, 'm', (), {}), None, None)
+      gevent.sleep(1)
+      cover('open-with-empty-server-set')
+      check('emptyopen.joined-member-gets-the-request', len(term2.got) == 0 and sum(len(c_.requests) for c_ in prov.created) == 1)
+      s.Close()
       return
     if op == 'empty':
       s = B.new_sink()
